@@ -668,6 +668,20 @@ def homo(chk, ctx, rf):
                 it = items[0]
                 cand = [d for d in decs if d["node"].lineno < it.node.lineno and d.get("fallback") is not None]
                 tab = CALL_TABLE.get(it.callee)
+                pc_it = path_constants(dfn, it.node)
+                # a production path that contradicts the constants of its own position (`K == 0` false inside `if K == 0:`,
+                # an artefact of duplicating a merged statement per case) is infeasible
+                infeasible = False
+                for tnode, tag in conds:
+                    t = tnode.test if isinstance(tnode, ast.If) else tnode
+                    if isinstance(t, ast.Compare) and len(t.ops) == 1 and isinstance(t.ops[0], (ast.Eq, ast.NotEq)) \
+                            and isinstance(t.left, ast.Name) and isinstance(t.comparators[0], ast.Constant) and t.left.id in pc_it:
+                        holds = (pc_it[t.left.id] == t.comparators[0].value) == isinstance(t.ops[0], ast.Eq)
+                        if holds != bool(tag):
+                            infeasible = True
+                if infeasible:
+                    continue
+                cand = [x for x in cand if path_constants(dfn, x["node"]) == pc_it] or cand
                 if cand and tab is not None and it.shift is None:
                     d = max(cand, key=lambda x: x["node"].lineno)
                     pbj = builder(tname)
